@@ -57,6 +57,63 @@ def coercion_tables():
     return words, nones, ("data.lower()" in src)
 
 
+CLS = {"NoneType": ".null", "bool": ".bool", "int": ".int", "float": ".float", "str": ".str", "list": ".list", "dict": ".dict"}
+BODY_NONE = "if data is None or (isinstance(data, str) and data in STR_NONE_VALUES):\n    return None\nelse:\n    raise bad_type(data, cls)"
+BODY_BOOL = ("if isinstance(data, str):\n    try:\n        return STR_TO_BOOL[data.lower()]\n    except KeyError:\n        raise bad_type(data, cls) from None\n"
+             "elif isinstance(data, int):\n    return bool(data)\nelse:\n    raise bad_type(data, cls)")
+BODY_STR = "if isinstance(data, (int, float)) and (not isinstance(data, bool)):\n    return str(data)\nelse:\n    raise bad_type(data, cls)"
+
+
+def coerce_chain():
+    """the if / elif / else chain of `coerce(cls, data)` as (guard, action) tokens of Apimodel/CoerceSrc.lean"""
+    tree = parse("deserialization/coercion.py")
+    fn = next((n for n in tree.body if isinstance(n, ast.FunctionDef) and n.name == "coerce"), None)
+    if fn is None or [a.arg for a in fn.args.args] != ["cls", "data"]: return [('.unknown "no coerce(cls, data)"', '.unknown ""')]
+    body = [st for st in fn.body if not (isinstance(st, ast.Expr) and isinstance(getattr(st, "value", None), ast.Constant))]
+    if len(body) != 1 or not isinstance(body[0], ast.If):
+        return [(".otherwise", ".unknown " + ls("\n".join(ast.unparse(st) for st in body)))]
+    def guard(test):
+        src = ast.unparse(test)
+        if isinstance(test, ast.Compare) and len(test.ops) == 1 and isinstance(test.left, ast.Name) and test.left.id == "cls":
+            c = test.comparators[0]
+            if isinstance(test.ops[0], ast.Is) and isinstance(c, ast.Name) and c.id in CLS: return f".clsIs {CLS[c.id]}"
+            if isinstance(test.ops[0], ast.In) and isinstance(c, ast.Tuple) and all(isinstance(e, ast.Name) and e.id in CLS for e in c.elts):
+                return ".clsIn [" + ", ".join(CLS[e.id] for e in c.elts) + "]"
+        if src == "isinstance(data, cls)": return ".dataIsCls"
+        if isinstance(test, ast.BoolOp) and isinstance(test.op, ast.And) and len(test.values) == 2:
+            a, b = test.values
+            ga = guard(a)
+            if ga.startswith(".clsIs ") and isinstance(b, ast.Call) and ast.unparse(b.func) == "isinstance" and len(b.args) == 2 \
+                    and ast.unparse(b.args[0]) == "data" and isinstance(b.args[1], ast.Name) and b.args[1].id in CLS:
+                return f".clsIsAndDataIs {ga[len('.clsIs '):]} {CLS[b.args[1].id]}"
+        return ".unknown " + ls(src)
+    def action(stmts):
+        src = "\n".join(ast.unparse(st) for st in stmts)
+        if src == "return data": return ".returnData"
+        if src == "raise bad_type(data, cls)": return ".badType"
+        if src == BODY_NONE:
+            words, nones, lowered = coercion_tables()
+            return ".noneOrIn [" + ", ".join(ls(x) for x in nones) + "]"
+        if src == BODY_BOOL: return ".boolBranch true"
+        if src == BODY_STR: return ".strBranch"
+        if len(stmts) == 1 and isinstance(stmts[0], ast.Try):
+            t = stmts[0]
+            if "\n".join(ast.unparse(x) for x in t.body) == "return cls(data)" and len(t.handlers) == 1 and not t.orelse and not t.finalbody \
+                    and "\n".join(ast.unparse(x) for x in t.handlers[0].body) == "raise bad_type(data, cls) from None":
+                ty = t.handlers[0].type
+                names = [e.id for e in ty.elts] if isinstance(ty, ast.Tuple) else ([ty.id] if isinstance(ty, ast.Name) else None)
+                if names is not None and all(isinstance(n, str) for n in names):
+                    return ".construct [" + ", ".join(ls(n) for n in names) + "]"
+        return ".unknown " + ls(src)
+    chain, node = [], body[0]
+    while True:
+        chain.append((guard(node.test), action(node.body)))
+        if len(node.orelse) == 1 and isinstance(node.orelse[0], ast.If): node = node.orelse[0]; continue
+        if node.orelse: chain.append((".otherwise", action(node.orelse)))
+        break
+    return chain
+
+
 def error_templates():
     tree = parse("settings.py")
     out = []
@@ -147,6 +204,10 @@ def main():
     L.append("def checkOnlyMethods : List String := [" + ", ".join(ls(s) for s in co) + "]")
     L += ["", "end Api.Generated", ""]
     changed |= write_if_changed(os.path.join(OUT, "Tables.lean"), "\n".join(L))
+    C = ["import Apimodel.CoerceSrc", "/-! GENERATED by tools/extract.py from apischema/deserialization/coercion.py — do not edit -/", "namespace Api.Generated", "",
+         "/-- the branches of `coerce(cls, data)` in source order -/", "def coerceChain : List (CGuard × CAction) := [\n  " +
+         ",\n  ".join(f"({g}, {a})" for g, a in coerce_chain()) + "]", "", "end Api.Generated", ""]
+    changed |= write_if_changed(os.path.join(OUT, "Coerce.lean"), "\n".join(C))
     print("generated", "changed" if changed else "unchanged")
 
 
